@@ -9,7 +9,7 @@
 From Coq Require Import NArith List String Bool.
 From Coq Require Import Strings.Byte.
 From PDL Require Import Base.Bits Base.Outcome Lang.Ast Lang.Sexp Analyzer.Schema Rust.Decode Rust.Runtime
-     Proofs.DecodeSuffix Proofs.RuntimeLaws.
+     Sem.RefEncode Proofs.DecodeSuffix Proofs.DecodeSafe Proofs.DecodeConsumes Proofs.RuntimeLaws.
 Import ListNotations.
 Open Scope N_scope.
 
@@ -31,3 +31,19 @@ Theorem C04_bytes_denote_their_integer_partial :
   forall bs : list byte, le_bytes (List.length bs) (of_le bs) = bs.
 Proof. exact le_bytes_of_le. Qed.
 Print Assumptions C04_bytes_denote_their_integer_partial.
+
+(** A root declaration made of bit-fields only, whose widths (as the SCHEMA gives them)
+    add up to a whole number of octets: when the emitted decoder succeeds, it has consumed
+    EXACTLY that many octets -- the remainder is the input minus total / 8 octets.  So
+    decode_full accepts only inputs of exactly the declaration's size, and a decoder that
+    succeeds never eats into what follows. *)
+Theorem C04_bitfield_declarations_consume_exactly_their_size :
+  forall (fuel : nat) (oc : bool) (fl : file) (sch : schema) (d : decl) (bs : list byte)
+         (v : value) (rest : list byte) (total : N),
+    bits_root fl d ->
+    wsum sch d (decl_fields d) = Some total ->
+    total mod 8 = 0 ->
+    rust_dec_decl (S fuel) oc fl sch d bs = Ok (v, rest) ->
+    len bs = len rest + total / 8.
+Proof. exact rust_dec_decl_bits_consumes. Qed.
+Print Assumptions C04_bitfield_declarations_consume_exactly_their_size.
